@@ -570,6 +570,9 @@ def parse_regex(regexstr: str, input_symbols: AbstractSet[str]) -> NFARegexBuild
 
     lexer = get_regex_lexer(input_symbols, state_name_counter)
     lexed_tokens = lexer.lex(regexstr)
+    if len(lexed_tokens) == 0:
+        # Only blanks: same as the empty regex
+        return NFARegexBuilder.from_string_literal("", count(0))
     validate_tokens(lexed_tokens)
     tokens_with_concats = add_concat_and_empty_string_tokens(
         lexed_tokens, state_name_counter
